@@ -89,6 +89,54 @@ def field_cases(ctx, n):
     return cases
 
 
+def flow_history_cases(ctx):
+    """histories on one TCP / UDP / ICMP flow that mix calls with and without frag_off: every datagram names the flow's
+    endpoints in the direction of the call, the flow's protocol, TTL 64 -- and the fragment offset of ITS OWN call
+    (none unless the call gave one), whatever an earlier call on the same flow asked for"""
+    r = ctx.rng
+    out = []
+    for i in range(30 if ctx.thorough else 10):
+        a, b, pa, pb = rand_ip(r), rand_ip(r), rand_port(r), rand_port(r)
+        c = Case()
+        c.name, c.files, c.text, c.meta = "h%d" % i, {}, None, []
+        st = [Import("ipv4"), Let("t", Call("ipv4::tcp::flow", SOCK(a, pa), SOCK(b, pb))), Let("u", Call("ipv4::udp::flow", SOCK(a, pa), SOCK(b, pb))),
+              Let("i", Call("ipv4::icmp::flow", IP(a), IP(b)))]
+        exp = []
+        def emit(call, recs):
+            st.append(Do(call)); exp.extend(recs)
+        cs, sc = (a, b), (b, a)
+        if r.random() < 0.7:
+            emit(Call("t.open"), [(6,) + cs + (0,), (6,) + sc + (0,), (6,) + cs + (0,)])
+        for _ in range(r.randint(4, 12)):
+            k = r.randrange(9)
+            side = r.choice(["client", "server"])
+            d = cs if side == "client" else sc
+            off = r.choice([1, 3, 185, 8191, r.getrandbits(13) or 1])
+            pl = STR(rand_payload(r, 24))
+            if k == 0:
+                emit(Call("t.%s_message" % side, _x=[pl], frag_off=off, send_ack=False), [(6,) + d + (off,)])
+            elif k == 1:
+                emit(Call("t.%s_message" % side, _x=[pl], send_ack=False), [(6,) + d + (0,)])
+            elif k == 2:
+                emit(Call("t.%s_segment" % side, _x=[pl]), [(6,) + d + (0,)])
+            elif k == 3:
+                emit(Call("t.%s_ack" % side), [(6,) + d + (0,)])
+            elif k == 4:
+                emit(Call("u.%s_dgram" % side, _x=[pl], frag_off=off), [(17,) + d + (off,)])
+            elif k == 5:
+                emit(Call("u.%s_dgram" % side, _x=[pl]), [(17,) + d + (0,)])
+            elif k == 6:
+                emit(Call("i.echo", pl), [(1,) + cs + (0,)])
+            elif k == 7:
+                emit(Call("i.echo_reply", pl), [(1,) + sc + (0,)])
+            else:
+                emit(Call("t.%s_message" % side, _x=[pl]), [(6,) + d + (0,), (6,) + (d[1], d[0]) + (0,)])
+        c.stmts = st
+        c.gen = {"kind": "flow-history", "expect": exp}
+        out.append(c)
+    return out
+
+
 def frag_field_cases(ctx):
     """fragments and tails of fragmentation contexts: offset, more-fragments flag and total length as requested (the
     field clauses of the statement), for payloads up to the sizes where 8 * length no longer fits 16 bits"""
@@ -117,7 +165,8 @@ def run(ctx):
         cases.append(c)
     fcs = field_cases(ctx, 120 if ctx.thorough else 40)
     bcs = boundary_cases(ctx)
-    kcs = carry.ip_id_cases(ctx, 24 if ctx.thorough else 8) + carry.tunnel_len_cases(ctx, 48 if ctx.thorough else 12) + frag_field_cases(ctx)
+    kcs = carry.ip_id_cases(ctx, 24 if ctx.thorough else 8) + carry.tunnel_len_cases(ctx, 48 if ctx.thorough else 12) + frag_field_cases(ctx) \
+        + flow_history_cases(ctx)
     cases += fcs + bcs + kcs
     # data files are addressed by absolute path: patch the placeholder once the work dir is known
     wd = common.workdir("c02pre")
@@ -128,7 +177,7 @@ def run(ctx):
     diff.run_both(ctx, "c02", cases)
     queries, owners = [], []
     for c in cases:
-        ctx.count("boundary" if c.name[0] == "b" else "fields" if c.name[0] == "f" else "carry-directed" if c.name[0] in "ku" else "frag-fields" if c.name[0] == "g" else "random")
+        ctx.count("boundary" if c.name[0] == "b" else "fields" if c.name[0] == "f" else "carry-directed" if c.name[0] in "ku" else "frag-fields" if c.name[0] == "g" else "flow-history" if c.name[0] == "h" else "random")
         if not diff.triage(ctx, c):
             continue
         oki, hi = headers(c.impl.pcap)
@@ -154,6 +203,17 @@ def run(ctx):
                     ctx.fail("ipv4-frag-fields", "request %s: flags/offset %#06x total length %d, expected %#06x and %d"
                              % (q, fo, tot, want_fo, 20 + len(data)), diff.replay_of(c))
                     break
+        if (c.gen or {}).get("kind") == "flow-history":
+            top = [d for (rec, depth, d) in hi if depth == 0]
+            if len(top) != len(c.gen["expect"]):
+                ctx.fail("ipv4-flow-history-count", "%d datagrams, the history builds %d" % (len(top), len(c.gen["expect"])), diff.replay_of(c))
+            else:
+                for k, (d, (proto, src, dst, off)) in enumerate(zip(top, c.gen["expect"])):
+                    tot, ident, frag, ttl, pr, cs_, s_, d_ = struct.unpack(">HHHBBHII", d[2:20])
+                    if (pr, s_, d_, frag, ttl) != (proto, src, dst, off, 64):
+                        ctx.fail("ipv4-flow-field", "datagram %d of the history: proto %d %08x -> %08x offset/flags %#06x ttl %d, its call designates "
+                                 "proto %d %08x -> %08x offset %#06x ttl 64" % (k, pr, s_, d_, frag, ttl, proto, src, dst, off), diff.replay_of(c))
+                        break
         if c.name[0] == "f" and hi:
             want, given, d = c.gen["want"], c.gen["given"], hi[0][2]
             tot, ident, frag, ttl, proto, cs, src, dst = struct.unpack(">HHHBBHII", d[2:20])
